@@ -5,6 +5,7 @@
 // output: V <values on all 3^NV assignments, one word per handle> EQ <n*n matrix of operator==, row major>
 //         P <GetPaths per handle: asgn:value,...> W <leaf sets seen by VoidApply1 per handle, as masks over values>
 //         W2 <value pairs seen by VoidApply2 on handles (i,i+1), hex-free list a*8+b joined by '.'>
+//         WR <the same seen by ONE re-used VoidApply2 functor, each traversal preceded by one it cut short with stopProcessing()>
 #include "mtbdd_common.hh"
 using namespace vd;
 using namespace vm;
@@ -48,6 +49,15 @@ template <class D> std::string runCase(Toks& t) {
 	for (auto& h : hs) { W1<D> w1; w1(*h); unsigned m = 0; for (unsigned v : w1.seen) m |= (1u << v); os << ' ' << m; }
 	os << " W2";
 	for (size_t i = 0; i + 1 < hs.size(); ++i) { W2<D> w2; w2(*hs[i], *hs[i + 1]); os << ' '; bool first = true; for (unsigned p : w2.seen) { os << (first ? "" : ".") << p; first = false; } }
+	os << " WR";
+	{	W2R<D> wr;
+		for (size_t i = 0; i + 1 < hs.size(); ++i) {
+			wr.seen.clear(); wr.calls = 0; wr.stopAt = (i + 1) % 4; wr(*hs[i], *hs[i + 1]);        // a traversal cut short after 1, 2, 3 leaf pairs (or not at all)
+			wr.seen.clear(); wr.calls = 0; wr.stopAt = 0; wr(*hs[i], *hs[i + 1]);                   // the next traversal with the same object: complete
+			os << ' '; bool first = true; for (unsigned p : wr.seen) { os << (first ? "" : ".") << p; first = false; }
+			if (wr.seen.empty()) os << '-';
+		}
+	}
 	return os.str();
 }
 
